@@ -84,6 +84,58 @@ func poolStress(args []string) int {
 		}
 		_ = enc.Encode(core.Ev{"op": "final", "finished": finished})
 	}
+	// short-lived pools: Start, a few Submits, Shutdown and the wait for completion follow one another in ONE goroutine
+	// without a pause (GOMAXPROCS 1 and 16): the pool's own goroutines may not have run at all when Shutdown arrives
+	for tr := 0; tr < 6+*traces/3; tr++ {
+		workers := 1 + rng.Intn(3)
+		cancel := rng.Intn(3) == 0
+		if tr%2 == 0 {
+			runtime.GOMAXPROCS(1)
+		} else {
+			runtime.GOMAXPROCS(16)
+		}
+		lg := &plog{}
+		p := hive.New("short", hive.WithWorkerCount(workers), hive.WithCancelPendingTasksOnShutdown(cancel))
+		var incs atomic.Int64
+		p.PendingTasksCounter.Subscribe(func(o, n int) {
+			if n > o {
+				incs.Add(1)
+			}
+		})
+		p.Start()
+		for k := 1; k <= 1+tr%3; k++ {
+			k := k
+			lg.add(core.Ev{"op": "begin", "k": k})
+			before := incs.Load()
+			p.Submit(func() { lg.add(core.Ev{"op": "run", "k": k}) })
+			lg.add(core.Ev{"op": "end", "k": k, "acc": incs.Load() > before})
+		}
+		done := make(chan struct{})
+		go func() {
+			defer close(done)
+			p.Shutdown()
+			p.ShutdownComplete.Wait()
+			lg.add(core.Ev{"op": "complete", "pending": p.PendingTasksCounter.Get()})
+		}()
+		finished := true
+		select {
+		case <-done:
+			time.Sleep(20 * time.Millisecond) // a task that still runs now runs after completion was reported
+		case <-time.After(10 * time.Second):
+			finished = false
+			hangs++
+		}
+		lg.mu.Lock()
+		_ = enc.Encode(core.Ev{"op": "reset", "cfg": core.Ev{"workers": workers, "cancel": cancel}})
+		for _, e := range lg.evs {
+			_ = enc.Encode(e)
+		}
+		if !finished {
+			_ = enc.Encode(core.Ev{"op": "complete", "pending": 0})
+		}
+		_ = enc.Encode(core.Ev{"op": "final", "finished": finished})
+		lg.mu.Unlock()
+	}
 	for tr := 0; tr < *traces; tr++ {
 		workers := 1 + rng.Intn(4)
 		cancel := rng.Intn(2) == 0
